@@ -1739,18 +1739,12 @@ def _unparenthesize_grouping(self: fst.FST, shared: bool | None = True, *, star_
         self._put_src(None, end_ln, end_col, pend_ln, pend_col, True, self)
         self._put_src(None, pln, pcol, ln, col, False)
 
-    else:  # in all other case we need to make sure par is not separating us from an alphanumeric on either side, and if so then just replace that par with a space
-        if pend_col >= 2 and _re_par_close_alnums.match(l := lines[pend_ln], pend_col - 2):
-            lines[pend_ln] = bistr(l[:pend_col - 1] + ' ' + l[pend_col:])
-        else:
-            self._put_src(None, end_ln, end_col, pend_ln, pend_col, True, self)
-
-        if pcol and _re_par_open_alnums.match(l := lines[pln], pcol - 1):
-            lines[pln] = bistr(l[:pcol] + ' ' + l[pcol + 1:])
-        else:
-            self._put_src(None, pln, pcol, ln, col, False)
-
-        self._touch()  # because if both parentheses were replaced with spaces directly above then nothing flushed our cached pars()
+    else:  # in all other case we need to make sure par is not separating us from an alphanumeric on either side, and if so then separate with a space
+        self._put_src(None, end_ln, end_col, pend_ln, pend_col, True, self)
+        self._fix_joined_alnums(end_ln, end_col, lines=lines)
+        self._put_src(None, pln, pcol, ln, col, False)
+        self._fix_joined_alnums(pln, pcol, lines=lines)
+        self._touch()
 
     return True
 
